@@ -382,9 +382,17 @@ func (p *parser) substituteAmpersandsInCompoundSelector(
 			// ".foo { :hover & {} }" => ":hover .foo {}"
 			// ".foo .bar { &:hover {} }" => ".foo .bar:hover {}"
 			last := len(replacement.Selectors) - 1
-			results = append(results, replacement.Selectors[:last]...)
+			prefix := replacement.Selectors[:last]
+			if strip == stripLeadingCombinator && last > 0 && prefix[0].Combinator.Byte != 0 {
+				// Only the combinator in front of the whole replacement is a
+				// leading combinator; the ones between its compound selectors
+				// ("a ~ b", "a > b") must be kept
+				prefix = append([]css_ast.CompoundSelector{}, prefix...)
+				prefix[0].Combinator = css_ast.Combinator{}
+			}
+			results = append(results, prefix...)
 			single = replacement.Selectors[last]
-			if strip == stripLeadingCombinator {
+			if strip == stripLeadingCombinator && last == 0 {
 				single.Combinator = css_ast.Combinator{}
 			}
 			sel.Combinator = single.Combinator
